@@ -49,7 +49,37 @@ func RunCheck(prop, repo, verif, tier, only string, seed int, start time.Time) i
 		}
 		c.Obls = keep
 	}
+	broken := 0
+	if tier == "thorough" && only == "" {
+		self, _ := os.Executable()
+		wr := RunWitnessesOf(self, repo, verif, prop, seed)
+		flagged, na := 0, 0
+		for _, r := range wr {
+			switch r.Status {
+			case "flagged":
+				flagged++
+			case "not-applicable", "does-not-compile":
+				na++
+			default:
+				broken++
+				fmt.Printf("WITNESS-NOT-FLAGGED property=%s witness=%d (%s): rule %s did not report the seeded break; reported: [%s]\n", prop, r.Index, r.Note, r.Expect, r.Reports)
+			}
+		}
+		c.Extra = map[string]any{
+			"mutation_witnesses_total":          len(wr),
+			"mutation_witnesses_flagged":        flagged,
+			"mutation_witnesses_not_applicable": na,
+			"mutation_witnesses":                wr,
+			"tier_note":                         "thorough = all rules of the quick tier + checker self-validation: every mutation witness of this property (an overlay edit that still type-checks) must be reported by its rule",
+		}
+		c.Evaluations += len(wr)
+		fmt.Printf("%s: %d mutation witnesses, %d flagged, %d not applicable on this tree\n", prop, len(wr), flagged, na)
+	}
 	res := c.Finish(verif, seed, start, pc.Explanation, pc.Assumptions)
+	if res.Exit == 0 && broken > 0 {
+		fmt.Printf("CHECK-BROKEN %d mutation witness(es) of %s are no longer detected by the analyzer\n", broken, prop)
+		return 2
+	}
 	return res.Exit
 }
 
